@@ -9,37 +9,37 @@
 /* name kind family cm ha klen sub bit min max gran ivlens taglens any_lo any_hi step lane enc_only inplace */
 const alg_t ALGS[] = {
         /* ---- ciphers ---- */
-        { "null-cipher", AK_CIPHER, F_NULLC, IMB_CIPHER_NULL, IMB_AUTH_NULL, 0, 0, 0, 0, L16, 1, IVS(0), TAGS(0), 0, 0, 0, LM_NONE, 0, 0 },
+        { "null-cipher", AK_CIPHER, F_NULLC, IMB_CIPHER_NULL, IMB_AUTH_NULL, 0, 0, 0, 0, 1u << 20, 1, IVS(0), TAGS(0), 0, 0, 0, LM_NONE, 0, 0 },
         { "aes-cbc-128", AK_CIPHER, F_AES, IMB_CIPHER_CBC, IMB_AUTH_NULL, 16, 0, 0, 16, 65520, 16, IVS(16), TAGS(0), 0, 0, 0, LM_AES128, 1, 0 },
         { "aes-cbc-192", AK_CIPHER, F_AES, IMB_CIPHER_CBC, IMB_AUTH_NULL, 24, 0, 0, 16, 65520, 16, IVS(16), TAGS(0), 0, 0, 0, LM_AES192, 1, 0 },
         { "aes-cbc-256", AK_CIPHER, F_AES, IMB_CIPHER_CBC, IMB_AUTH_NULL, 32, 0, 0, 16, 65520, 16, IVS(16), TAGS(0), 0, 0, 0, LM_AES256, 1, 0 },
-        { "aes-ctr-128", AK_CIPHER, F_AES, IMB_CIPHER_CNTR, IMB_AUTH_NULL, 16, 0, 0, 1, L16, 1, IVS(16, 12), TAGS(0), 0, 0, 0, LM_NONE, 0, 0 },
-        { "aes-ctr-192", AK_CIPHER, F_AES, IMB_CIPHER_CNTR, IMB_AUTH_NULL, 24, 0, 0, 1, L16, 1, IVS(16, 12), TAGS(0), 0, 0, 0, LM_NONE, 0, 0 },
-        { "aes-ctr-256", AK_CIPHER, F_AES, IMB_CIPHER_CNTR, IMB_AUTH_NULL, 32, 0, 0, 1, L16, 1, IVS(16, 12), TAGS(0), 0, 0, 0, LM_NONE, 0, 0 },
+        { "aes-ctr-128", AK_CIPHER, F_AES, IMB_CIPHER_CNTR, IMB_AUTH_NULL, 16, 0, 0, 1, 1u << 20, 1, IVS(16, 12), TAGS(0), 0, 0, 0, LM_NONE, 0, 0 },
+        { "aes-ctr-192", AK_CIPHER, F_AES, IMB_CIPHER_CNTR, IMB_AUTH_NULL, 24, 0, 0, 1, 1u << 20, 1, IVS(16, 12), TAGS(0), 0, 0, 0, LM_NONE, 0, 0 },
+        { "aes-ctr-256", AK_CIPHER, F_AES, IMB_CIPHER_CNTR, IMB_AUTH_NULL, 32, 0, 0, 1, 1u << 20, 1, IVS(16, 12), TAGS(0), 0, 0, 0, LM_NONE, 0, 0 },
         { "aes-ecb-128", AK_CIPHER, F_AES, IMB_CIPHER_ECB, IMB_AUTH_NULL, 16, 0, 0, 16, 65520, 16, IVS(0), TAGS(0), 0, 0, 0, LM_NONE, 0, 0 },
         { "aes-ecb-192", AK_CIPHER, F_AES, IMB_CIPHER_ECB, IMB_AUTH_NULL, 24, 0, 0, 16, 65520, 16, IVS(0), TAGS(0), 0, 0, 0, LM_NONE, 0, 0 },
         { "aes-ecb-256", AK_CIPHER, F_AES, IMB_CIPHER_ECB, IMB_AUTH_NULL, 32, 0, 0, 16, 65520, 16, IVS(0), TAGS(0), 0, 0, 0, LM_NONE, 0, 0 },
-        { "aes-cfb-128", AK_CIPHER, F_AES, IMB_CIPHER_CFB, IMB_AUTH_NULL, 16, 0, 0, 16, 65520, 16, IVS(16), TAGS(0), 0, 0, 0, LM_CFB128, 1, 0 },
-        { "aes-cfb-192", AK_CIPHER, F_AES, IMB_CIPHER_CFB, IMB_AUTH_NULL, 24, 0, 0, 16, 65520, 16, IVS(16), TAGS(0), 0, 0, 0, LM_CFB192, 1, 0 },
-        { "aes-cfb-256", AK_CIPHER, F_AES, IMB_CIPHER_CFB, IMB_AUTH_NULL, 32, 0, 0, 16, 65520, 16, IVS(16), TAGS(0), 0, 0, 0, LM_CFB256, 1, 0 },
-        { "aes-ctr-bit-128", AK_CIPHER, F_AES, IMB_CIPHER_CNTR_BITLEN, IMB_AUTH_NULL, 16, 0, 1, 1, L16 * 8, 1, IVS(16), TAGS(0), 0, 0, 0, LM_NONE, 0, 0 },
-        { "aes-ctr-bit-192", AK_CIPHER, F_AES, IMB_CIPHER_CNTR_BITLEN, IMB_AUTH_NULL, 24, 0, 1, 1, L16 * 8, 1, IVS(16), TAGS(0), 0, 0, 0, LM_NONE, 0, 0 },
-        { "aes-ctr-bit-256", AK_CIPHER, F_AES, IMB_CIPHER_CNTR_BITLEN, IMB_AUTH_NULL, 32, 0, 1, 1, L16 * 8, 1, IVS(16), TAGS(0), 0, 0, 0, LM_NONE, 0, 0 },
+        { "aes-cfb-128", AK_CIPHER, F_AES, IMB_CIPHER_CFB, IMB_AUTH_NULL, 16, 0, 0, 0, 1u << 20, 16, IVS(16), TAGS(0), 0, 0, 0, LM_CFB128, 1, 0 },
+        { "aes-cfb-192", AK_CIPHER, F_AES, IMB_CIPHER_CFB, IMB_AUTH_NULL, 24, 0, 0, 0, 1u << 20, 16, IVS(16), TAGS(0), 0, 0, 0, LM_CFB192, 1, 0 },
+        { "aes-cfb-256", AK_CIPHER, F_AES, IMB_CIPHER_CFB, IMB_AUTH_NULL, 32, 0, 0, 0, 1u << 20, 16, IVS(16), TAGS(0), 0, 0, 0, LM_CFB256, 1, 0 },
+        { "aes-ctr-bit-128", AK_CIPHER, F_AES, IMB_CIPHER_CNTR_BITLEN, IMB_AUTH_NULL, 16, 0, 1, 1, 8u << 20, 1, IVS(16), TAGS(0), 0, 0, 0, LM_NONE, 0, 0 },
+        { "aes-ctr-bit-192", AK_CIPHER, F_AES, IMB_CIPHER_CNTR_BITLEN, IMB_AUTH_NULL, 24, 0, 1, 1, 8u << 20, 1, IVS(16), TAGS(0), 0, 0, 0, LM_NONE, 0, 0 },
+        { "aes-ctr-bit-256", AK_CIPHER, F_AES, IMB_CIPHER_CNTR_BITLEN, IMB_AUTH_NULL, 32, 0, 1, 1, 8u << 20, 1, IVS(16), TAGS(0), 0, 0, 0, LM_NONE, 0, 0 },
         { "aes-cbcs-1-9", AK_CIPHER, F_CBCS, IMB_CIPHER_CBCS_1_9, IMB_AUTH_NULL, 16, 0, 0, 16, 65520, 16, IVS(16), TAGS(0), 0, 0, 0, LM_CBCS, 1, 0 },
-        { "docsis-aes-128", AK_CIPHER, F_AES, IMB_CIPHER_DOCSIS_SEC_BPI, IMB_AUTH_NULL, 16, 0, 0, 1, L16, 1, IVS(16), TAGS(0), 0, 0, 0, LM_DOCSIS128, 1, 0 },
-        { "docsis-aes-256", AK_CIPHER, F_AES, IMB_CIPHER_DOCSIS_SEC_BPI, IMB_AUTH_NULL, 32, 0, 0, 1, L16, 1, IVS(16), TAGS(0), 0, 0, 0, LM_DOCSIS256, 1, 0 },
+        { "docsis-aes-128", AK_CIPHER, F_AES, IMB_CIPHER_DOCSIS_SEC_BPI, IMB_AUTH_NULL, 16, 0, 0, 0, L16, 1, IVS(16), TAGS(0), 0, 0, 0, LM_DOCSIS128, 1, 0 },
+        { "docsis-aes-256", AK_CIPHER, F_AES, IMB_CIPHER_DOCSIS_SEC_BPI, IMB_AUTH_NULL, 32, 0, 0, 0, L16, 1, IVS(16), TAGS(0), 0, 0, 0, LM_DOCSIS256, 1, 0 },
         { "docsis-des", AK_CIPHER, F_DOCSISDES, IMB_CIPHER_DOCSIS_DES, IMB_AUTH_NULL, 8, 0, 0, 1, L16, 1, IVS(8), TAGS(0), 0, 0, 0, LM_DOCSISDES, 0, 0 },
         { "des-cbc", AK_CIPHER, F_DES, IMB_CIPHER_DES, IMB_AUTH_NULL, 8, 0, 0, 8, 65528, 8, IVS(8), TAGS(0), 0, 0, 0, LM_DES, 0, 0 },
         { "3des-cbc", AK_CIPHER, F_DES3, IMB_CIPHER_DES3, IMB_AUTH_NULL, 24, 0, 0, 8, 65528, 8, IVS(8), TAGS(0), 0, 0, 0, LM_DES3, 0, 0 },
         { "chacha20", AK_CIPHER, F_CHACHA, IMB_CIPHER_CHACHA20, IMB_AUTH_NULL, 32, 0, 0, 1, 1u << 20, 1, IVS(12), TAGS(0), 0, 0, 0, LM_NONE, 0, 0 },
         { "zuc-eea3-128", AK_CIPHER, F_ZUC, IMB_CIPHER_ZUC_EEA3, IMB_AUTH_NULL, 16, 0, 0, 1, 8188, 1, IVS(16), TAGS(0), 0, 0, 0, LM_ZUC, 0, 0 },
         { "zuc-eea3-256", AK_CIPHER, F_ZUC, IMB_CIPHER_ZUC_EEA3, IMB_AUTH_NULL, 32, 0, 0, 1, 8188, 1, IVS(25, 23), TAGS(0), 0, 0, 0, LM_ZUC256, 0, 0 },
-        { "snow3g-uea2", AK_CIPHER, F_SNOW3G, IMB_CIPHER_SNOW3G_UEA2_BITLEN, IMB_AUTH_NULL, 16, 0, 1, 1, L16 * 8, 1, IVS(16), TAGS(0), 0, 0, 0, LM_SNOW3G, 0, 0 },
+        { "snow3g-uea2", AK_CIPHER, F_SNOW3G, IMB_CIPHER_SNOW3G_UEA2_BITLEN, IMB_AUTH_NULL, 16, 0, 1, 1, 8u << 20, 1, IVS(16), TAGS(0), 0, 0, 0, LM_SNOW3G, 0, 0 },
         { "kasumi-f8", AK_CIPHER, F_KASUMI, IMB_CIPHER_KASUMI_UEA1_BITLEN, IMB_AUTH_NULL, 16, 0, 1, 1, 20000, 1, IVS(8), TAGS(0), 0, 0, 0, LM_NONE, 0, 0 },
-        { "snow-v", AK_CIPHER, F_SNOWV, IMB_CIPHER_SNOW_V, IMB_AUTH_NULL, 32, 0, 0, 1, 1u << 20, 1, IVS(16), TAGS(0), 0, 0, 0, LM_NONE, 0, 0 },
-        { "sm4-ecb", AK_CIPHER, F_SM4, IMB_CIPHER_SM4_ECB, IMB_AUTH_NULL, 16, 0, 0, 16, 65520, 16, IVS(0), TAGS(0), 0, 0, 0, LM_NONE, 0, 0 },
+        { "snow-v", AK_CIPHER, F_SNOWV, IMB_CIPHER_SNOW_V, IMB_AUTH_NULL, 32, 0, 0, 0, 1u << 20, 1, IVS(16), TAGS(0), 0, 0, 0, LM_NONE, 0, 0 },
+        { "sm4-ecb", AK_CIPHER, F_SM4, IMB_CIPHER_SM4_ECB, IMB_AUTH_NULL, 16, 0, 0, 16, 1u << 20, 16, IVS(0), TAGS(0), 0, 0, 0, LM_NONE, 0, 0 },
         { "sm4-cbc", AK_CIPHER, F_SM4, IMB_CIPHER_SM4_CBC, IMB_AUTH_NULL, 16, 0, 0, 16, 65520, 16, IVS(16), TAGS(0), 0, 0, 0, LM_NONE, 0, 0 },
-        { "sm4-ctr", AK_CIPHER, F_SM4, IMB_CIPHER_SM4_CNTR, IMB_AUTH_NULL, 16, 0, 0, 1, L16, 1, IVS(16, 12), TAGS(0), 0, 0, 0, LM_NONE, 0, 0 },
+        { "sm4-ctr", AK_CIPHER, F_SM4, IMB_CIPHER_SM4_CNTR, IMB_AUTH_NULL, 16, 0, 0, 1, 1u << 20, 1, IVS(16, 12), TAGS(0), 0, 0, 0, LM_NONE, 0, 0 },
         /* ---- hashes / MACs ---- */
         { "hmac-sha1", AK_HASH, F_HMAC, IMB_CIPHER_NULL, IMB_AUTH_HMAC_SHA_1, 0, REF_SHA1, 0, 1, L16, 1, IVS(0), TAGS(12, 20), 0, 0, 0, LM_HSHA1, 0, 0 },
         { "hmac-sha224", AK_HASH, F_HMAC, IMB_CIPHER_NULL, IMB_AUTH_HMAC_SHA_224, 0, REF_SHA224, 0, 1, L16, 1, IVS(0), TAGS(14, 28), 0, 0, 0, LM_HSHA224, 0, 0 },
@@ -47,13 +47,13 @@ const alg_t ALGS[] = {
         { "hmac-sha384", AK_HASH, F_HMAC, IMB_CIPHER_NULL, IMB_AUTH_HMAC_SHA_384, 0, REF_SHA384, 0, 1, L16, 1, IVS(0), TAGS(24, 48), 0, 0, 0, LM_HSHA384, 0, 0 },
         { "hmac-sha512", AK_HASH, F_HMAC, IMB_CIPHER_NULL, IMB_AUTH_HMAC_SHA_512, 0, REF_SHA512, 0, 1, L16, 1, IVS(0), TAGS(32, 64), 0, 0, 0, LM_HSHA512, 0, 0 },
         { "hmac-md5", AK_HASH, F_HMAC, IMB_CIPHER_NULL, IMB_AUTH_MD5, 0, REF_MD5, 0, 1, L16, 1, IVS(0), TAGS(12, 16), 0, 0, 0, LM_HMD5, 0, 0 },
-        { "hmac-sm3", AK_HASH, F_HMAC, IMB_CIPHER_NULL, IMB_AUTH_HMAC_SM3, 0, REF_SM3, 0, 1, L16, 1, IVS(0), TAGS(32, 16), 1, 32, 1, LM_NONE, 0, 0 },
+        { "hmac-sm3", AK_HASH, F_HMAC, IMB_CIPHER_NULL, IMB_AUTH_HMAC_SM3, 0, REF_SM3, 0, 1, 1u << 20, 1, IVS(0), TAGS(32, 16), 1, 32, 1, LM_NONE, 0, 0 },
         { "sha1", AK_HASH, F_SHA, IMB_CIPHER_NULL, IMB_AUTH_SHA_1, 0, REF_SHA1, 0, 0, L16, 1, IVS(0), TAGS(20), 0, 0, 0, LM_SHA1, 0, 0 },
         { "sha224", AK_HASH, F_SHA, IMB_CIPHER_NULL, IMB_AUTH_SHA_224, 0, REF_SHA224, 0, 0, L16, 1, IVS(0), TAGS(28), 0, 0, 0, LM_SHA224, 0, 0 },
         { "sha256", AK_HASH, F_SHA, IMB_CIPHER_NULL, IMB_AUTH_SHA_256, 0, REF_SHA256, 0, 0, L16, 1, IVS(0), TAGS(32), 0, 0, 0, LM_SHA256, 0, 0 },
         { "sha384", AK_HASH, F_SHA, IMB_CIPHER_NULL, IMB_AUTH_SHA_384, 0, REF_SHA384, 0, 0, L16, 1, IVS(0), TAGS(48), 0, 0, 0, LM_SHA384, 0, 0 },
         { "sha512", AK_HASH, F_SHA, IMB_CIPHER_NULL, IMB_AUTH_SHA_512, 0, REF_SHA512, 0, 0, L16, 1, IVS(0), TAGS(64), 0, 0, 0, LM_SHA512, 0, 0 },
-        { "sm3", AK_HASH, F_SM3, IMB_CIPHER_NULL, IMB_AUTH_SM3, 0, REF_SM3, 0, 0, L16, 1, IVS(0), TAGS(32), 1, 32, 1, LM_NONE, 0, 0 },
+        { "sm3", AK_HASH, F_SM3, IMB_CIPHER_NULL, IMB_AUTH_SM3, 0, REF_SM3, 0, 0, 1u << 20, 1, IVS(0), TAGS(32), 1, 32, 1, LM_NONE, 0, 0 },
         { "aes-xcbc", AK_HASH, F_XCBC, IMB_CIPHER_NULL, IMB_AUTH_AES_XCBC, 0, 0, 0, 0, L16, 1, IVS(0), TAGS(12), 0, 0, 0, LM_XCBC, 0, 0 },
         { "aes-cmac-128", AK_HASH, F_CMAC, IMB_CIPHER_NULL, IMB_AUTH_AES_CMAC, 16, 0, 0, 0, L16, 1, IVS(0), TAGS(16), 1, 16, 1, LM_CMAC128, 0, 0 },
         { "aes-cmac-bitlen", AK_HASH, F_CMAC, IMB_CIPHER_NULL, IMB_AUTH_AES_CMAC_BITLEN, 16, 0, 1, 0, L16 * 8, 1, IVS(0), TAGS(4), 1, 16, 1, LM_CMAC128, 0, 0 },
@@ -61,24 +61,24 @@ const alg_t ALGS[] = {
         { "aes-gmac-128", AK_HASH, F_GMAC, IMB_CIPHER_NULL, IMB_AUTH_AES_GMAC_128, 16, 0, 0, 0, 1u << 20, 1, IVS(12), TAGS(16), 1, 16, 1, LM_NONE, 0, 0 },
         { "aes-gmac-192", AK_HASH, F_GMAC, IMB_CIPHER_NULL, IMB_AUTH_AES_GMAC_192, 24, 0, 0, 0, 1u << 20, 1, IVS(12), TAGS(16), 1, 16, 1, LM_NONE, 0, 0 },
         { "aes-gmac-256", AK_HASH, F_GMAC, IMB_CIPHER_NULL, IMB_AUTH_AES_GMAC_256, 32, 0, 0, 0, 1u << 20, 1, IVS(12), TAGS(16), 1, 16, 1, LM_NONE, 0, 0 },
-        { "ghash", AK_HASH, F_GHASH, IMB_CIPHER_NULL, IMB_AUTH_GHASH, 16, 0, 0, 1, 1u << 20, 1, IVS(0), TAGS(16), 1, 16, 1, LM_NONE, 0, 0 },
+        { "ghash", AK_HASH, F_GHASH, IMB_CIPHER_NULL, IMB_AUTH_GHASH, 16, 0, 0, 0, 1u << 20, 1, IVS(0), TAGS(16), 1, 16, 1, LM_NONE, 0, 0 },
         { "poly1305", AK_HASH, F_POLY, IMB_CIPHER_NULL, IMB_AUTH_POLY1305, 32, 0, 0, 0, 1u << 20, 1, IVS(0), TAGS(16), 0, 0, 0, LM_NONE, 0, 0 },
         { "zuc-eia3-128", AK_HASH, F_ZUCEIA, IMB_CIPHER_NULL, IMB_AUTH_ZUC_EIA3_BITLEN, 16, 0, 1, 1, 65504, 1, IVS(16), TAGS(4), 0, 0, 0, LM_ZUCEIA, 0, 0 },
         { "zuc-eia3-256", AK_HASH, F_ZUCEIA, IMB_CIPHER_NULL, IMB_AUTH_ZUC256_EIA3_BITLEN, 32, 0, 1, 1, 65504, 1, IVS(25, 23), TAGS(4, 8, 16), 0, 0, 0, LM_ZUC256EIA4, 0, 0 },
-        { "snow3g-uia2", AK_HASH, F_S3UIA, IMB_CIPHER_NULL, IMB_AUTH_SNOW3G_UIA2_BITLEN, 16, 0, 1, 1, L16 * 8, 1, IVS(16), TAGS(4), 0, 0, 0, LM_S3UIA, 0, 0 },
+        { "snow3g-uia2", AK_HASH, F_S3UIA, IMB_CIPHER_NULL, IMB_AUTH_SNOW3G_UIA2_BITLEN, 16, 0, 1, 1, 8u << 20, 1, IVS(16), TAGS(4), 0, 0, 0, LM_S3UIA, 0, 0 },
         { "kasumi-f9", AK_HASH, F_KF9, IMB_CIPHER_NULL, IMB_AUTH_KASUMI_UIA1, 16, 0, 0, 9, 2500, 1, IVS(0), TAGS(4), 0, 0, 0, LM_NONE, 0, 0 },
-        { "crc32-ethernet-fcs", AK_HASH, F_CRC, IMB_CIPHER_NULL, IMB_AUTH_CRC32_ETHERNET_FCS, 0, REF_CRC32_ETHERNET_FCS, 0, 0, L16, 1, IVS(0), TAGS(4), 0, 0, 0, LM_NONE, 0, 0 },
-        { "crc32-sctp", AK_HASH, F_CRC, IMB_CIPHER_NULL, IMB_AUTH_CRC32_SCTP, 0, REF_CRC32_SCTP, 0, 0, L16, 1, IVS(0), TAGS(4), 0, 0, 0, LM_NONE, 0, 0 },
-        { "crc32-wimax-ofdma-data", AK_HASH, F_CRC, IMB_CIPHER_NULL, IMB_AUTH_CRC32_WIMAX_OFDMA_DATA, 0, REF_CRC32_WIMAX_OFDMA_DATA, 0, 0, L16, 1, IVS(0), TAGS(4), 0, 0, 0, LM_NONE, 0, 0 },
-        { "crc24-lte-a", AK_HASH, F_CRC, IMB_CIPHER_NULL, IMB_AUTH_CRC24_LTE_A, 0, REF_CRC24_LTE_A, 0, 0, L16, 1, IVS(0), TAGS(4), 0, 0, 0, LM_NONE, 0, 0 },
-        { "crc24-lte-b", AK_HASH, F_CRC, IMB_CIPHER_NULL, IMB_AUTH_CRC24_LTE_B, 0, REF_CRC24_LTE_B, 0, 0, L16, 1, IVS(0), TAGS(4), 0, 0, 0, LM_NONE, 0, 0 },
-        { "crc16-x25", AK_HASH, F_CRC, IMB_CIPHER_NULL, IMB_AUTH_CRC16_X25, 0, REF_CRC16_X25, 0, 0, L16, 1, IVS(0), TAGS(4), 0, 0, 0, LM_NONE, 0, 0 },
-        { "crc16-fp-data", AK_HASH, F_CRC, IMB_CIPHER_NULL, IMB_AUTH_CRC16_FP_DATA, 0, REF_CRC16_FP_DATA, 0, 0, L16, 1, IVS(0), TAGS(4), 0, 0, 0, LM_NONE, 0, 0 },
-        { "crc11-fp-header", AK_HASH, F_CRC, IMB_CIPHER_NULL, IMB_AUTH_CRC11_FP_HEADER, 0, REF_CRC11_FP_HEADER, 0, 0, L16, 1, IVS(0), TAGS(4), 0, 0, 0, LM_NONE, 0, 0 },
-        { "crc10-iuup-data", AK_HASH, F_CRC, IMB_CIPHER_NULL, IMB_AUTH_CRC10_IUUP_DATA, 0, REF_CRC10_IUUP_DATA, 0, 0, L16, 1, IVS(0), TAGS(4), 0, 0, 0, LM_NONE, 0, 0 },
-        { "crc8-wimax-ofdma-hcs", AK_HASH, F_CRC, IMB_CIPHER_NULL, IMB_AUTH_CRC8_WIMAX_OFDMA_HCS, 0, REF_CRC8_WIMAX_OFDMA_HCS, 0, 0, L16, 1, IVS(0), TAGS(4), 0, 0, 0, LM_NONE, 0, 0 },
-        { "crc7-fp-header", AK_HASH, F_CRC, IMB_CIPHER_NULL, IMB_AUTH_CRC7_FP_HEADER, 0, REF_CRC7_FP_HEADER, 0, 0, L16, 1, IVS(0), TAGS(4), 0, 0, 0, LM_NONE, 0, 0 },
-        { "crc6-iuup-header", AK_HASH, F_CRC, IMB_CIPHER_NULL, IMB_AUTH_CRC6_IUUP_HEADER, 0, REF_CRC6_IUUP_HEADER, 0, 0, L16, 1, IVS(0), TAGS(4), 0, 0, 0, LM_NONE, 0, 0 },
+        { "crc32-ethernet-fcs", AK_HASH, F_CRC, IMB_CIPHER_NULL, IMB_AUTH_CRC32_ETHERNET_FCS, 0, REF_CRC32_ETHERNET_FCS, 0, 0, 1u << 20, 1, IVS(0), TAGS(4), 0, 0, 0, LM_NONE, 0, 0 },
+        { "crc32-sctp", AK_HASH, F_CRC, IMB_CIPHER_NULL, IMB_AUTH_CRC32_SCTP, 0, REF_CRC32_SCTP, 0, 0, 1u << 20, 1, IVS(0), TAGS(4), 0, 0, 0, LM_NONE, 0, 0 },
+        { "crc32-wimax-ofdma-data", AK_HASH, F_CRC, IMB_CIPHER_NULL, IMB_AUTH_CRC32_WIMAX_OFDMA_DATA, 0, REF_CRC32_WIMAX_OFDMA_DATA, 0, 0, 1u << 20, 1, IVS(0), TAGS(4), 0, 0, 0, LM_NONE, 0, 0 },
+        { "crc24-lte-a", AK_HASH, F_CRC, IMB_CIPHER_NULL, IMB_AUTH_CRC24_LTE_A, 0, REF_CRC24_LTE_A, 0, 0, 1u << 20, 1, IVS(0), TAGS(4), 0, 0, 0, LM_NONE, 0, 0 },
+        { "crc24-lte-b", AK_HASH, F_CRC, IMB_CIPHER_NULL, IMB_AUTH_CRC24_LTE_B, 0, REF_CRC24_LTE_B, 0, 0, 1u << 20, 1, IVS(0), TAGS(4), 0, 0, 0, LM_NONE, 0, 0 },
+        { "crc16-x25", AK_HASH, F_CRC, IMB_CIPHER_NULL, IMB_AUTH_CRC16_X25, 0, REF_CRC16_X25, 0, 0, 1u << 20, 1, IVS(0), TAGS(4), 0, 0, 0, LM_NONE, 0, 0 },
+        { "crc16-fp-data", AK_HASH, F_CRC, IMB_CIPHER_NULL, IMB_AUTH_CRC16_FP_DATA, 0, REF_CRC16_FP_DATA, 0, 0, 1u << 20, 1, IVS(0), TAGS(4), 0, 0, 0, LM_NONE, 0, 0 },
+        { "crc11-fp-header", AK_HASH, F_CRC, IMB_CIPHER_NULL, IMB_AUTH_CRC11_FP_HEADER, 0, REF_CRC11_FP_HEADER, 0, 0, 1u << 20, 1, IVS(0), TAGS(4), 0, 0, 0, LM_NONE, 0, 0 },
+        { "crc10-iuup-data", AK_HASH, F_CRC, IMB_CIPHER_NULL, IMB_AUTH_CRC10_IUUP_DATA, 0, REF_CRC10_IUUP_DATA, 0, 0, 1u << 20, 1, IVS(0), TAGS(4), 0, 0, 0, LM_NONE, 0, 0 },
+        { "crc8-wimax-ofdma-hcs", AK_HASH, F_CRC, IMB_CIPHER_NULL, IMB_AUTH_CRC8_WIMAX_OFDMA_HCS, 0, REF_CRC8_WIMAX_OFDMA_HCS, 0, 0, 1u << 20, 1, IVS(0), TAGS(4), 0, 0, 0, LM_NONE, 0, 0 },
+        { "crc7-fp-header", AK_HASH, F_CRC, IMB_CIPHER_NULL, IMB_AUTH_CRC7_FP_HEADER, 0, REF_CRC7_FP_HEADER, 0, 0, 1u << 20, 1, IVS(0), TAGS(4), 0, 0, 0, LM_NONE, 0, 0 },
+        { "crc6-iuup-header", AK_HASH, F_CRC, IMB_CIPHER_NULL, IMB_AUTH_CRC6_IUUP_HEADER, 0, REF_CRC6_IUUP_HEADER, 0, 0, 1u << 20, 1, IVS(0), TAGS(4), 0, 0, 0, LM_NONE, 0, 0 },
         /* ---- AEAD / combined ---- */
         { "aes-gcm-128", AK_AEAD, F_GCM, IMB_CIPHER_GCM, IMB_AUTH_AES_GMAC, 16, 0, 0, 0, 1u << 20, 1, IVS(12), TAGS(16), 1, 16, 1, LM_NONE, 0, 0 },
         { "aes-gcm-192", AK_AEAD, F_GCM, IMB_CIPHER_GCM, IMB_AUTH_AES_GMAC, 24, 0, 0, 0, 1u << 20, 1, IVS(12), TAGS(16), 1, 16, 1, LM_NONE, 0, 0 },
